@@ -11,7 +11,7 @@ class S(vlib.Spec):
     props_file = "Props/C05.v"
     harness_pkg = "./cmd/c05"
     harness_name = "c05"
-    corr_codes = {1, 9}
+    corr_codes = {1, 9, 11}
     code_names = {
         1: "model and implementation disagree (resolved AST field, error class, or Deref result)",
         2: "a reference is bound to something else than the generator intended",
@@ -19,7 +19,9 @@ class S(vlib.Spec):
         4: "a program broken on purpose (undefined / ambiguous / cyclic ...) was accepted",
         5: "a program that is valid by construction was rejected by resolution",
         7: "Include.Used does not say whether something refers through the include",
+        8: "the decidable specification (resolvable, theorem resolve_complete) says the program resolves but the implementation rejected it",
         9: "model out of fuel",
+        11: "valid-by-construction program accepted by the implementation although resolvable says no (specification stricter than the code)",
     }
     modelled = ("semantic/semantic.go: ResolveSymbols, resolver.ResolveAST, RegisterNames/AddName, ResolveType, getEnum, "
                 "ResolveConstValue, ResolveStructField, ResolveFunction, ResolveBaseService, ResolveTypedefs/ResolveTypedef, Deref; "
@@ -38,7 +40,7 @@ class S(vlib.Spec):
         "input of the pass = output of the parser: resolution fields at their zero value (theorem hypothesis parsed_program)",
         "include graphs are acyclic when the pass runs (every thriftgo pipeline calls parser.CircleDetect first); the model answers "
         "ErrIncludeCycle/ErrOutOfFuel on cycles where Go would see an empty name table through the back edge",
-        "deref_spec is proved for sufficient fuel; the concrete bound deref_fuel (and enum_fuel of get_enum) is validated by the correspondence only",
+        "resolve_complete / enum_fuel_suffices / resolve_const_unique need plain_names (no definition named like a builtin type or containing a dot)",
     ]
 
     def classify(self, code, case):
@@ -51,7 +53,7 @@ class S(vlib.Spec):
             obs = (case.get("run") or {}).get("obs") or {}
             return "C05-valid-program-rejected-class-%s" % obs.get("class")
         return {2: "C05-binding-differs-from-intent", 3: "C05-outcome-depends-on-definition-order",
-                7: "C05-used-mark-wrong"}.get(code, "C05-code-%d" % code)
+                7: "C05-used-mark-wrong", 8: "C05-resolvable-program-rejected"}.get(code, "C05-code-%d" % code)
 
     def search(self, ctx):
         return None
